@@ -270,6 +270,8 @@ class Exec(object):
         self.call_hooks = {}      # qualname -> python callable(ex, args, kwargs) replacing the body (modular use of a contract)
         self.loop_guard = 0
         self.ghost_facts = []
+        self.grad_cuts = []       # places where a value derived from tracked leaves left the autograd graph
+        self.tensors = {}         # tid -> tensor (for the autograd contract)
         self.optable = None
         from . import optable
         self.optable = optable
@@ -359,6 +361,12 @@ class Exec(object):
         if id(obj) in self.arg_objs:
             self.writes.append(('attr', '%s.%s' % (self.arg_objs[id(obj)], name), 'setattr'))
 
+    def cur_where(self):
+        n = getattr(self, 'cur_node', None)
+        m = self.cur_module_stack[-1].name if getattr(self, 'cur_module_stack', None) else None
+        fr = self.frames[-1].func.qualname if self.frames and self.frames[-1].func is not None else '?'
+        return '%s:%s' % (fr, getattr(n, 'lineno', '?'))
+
     def tracked_leaves(self):
         out = []
         seen = set()
@@ -369,7 +377,7 @@ class Exec(object):
         return out
 
     def _all_tensors(self):
-        return getattr(self, 'tensor_registry', [])
+        return list(self.tensors.values())
 
     # ---- modules
     def module(self, name):
